@@ -87,11 +87,11 @@ def run(tier):
                         % (e3['pair_witness'], e3['dead_entry']),
                         'detail': 'z3: a required op type is missing from mergeable_ops (extracted %r)' % (e3['mergeable_ops'],),
                         'replay': rp})
-    n_part = [[t] for t in range(6)]
+    n_part = [[t, u] for t in range(6) for u in range(6)]
     obs = [
         Obligation('grouping', 'harness/c18.py', 'h_grouping', partitions=n_part, timeout=600,
                    what='generate_table_ops_sql: every maximal run of add_column/change_column/delete_column/change_meta ops lands in one AlterTableSQLResult (one rebuild on SQLite); other ops get their own result; every op is finished exactly once in order',
-                   bounds='all op-type sequences of length 1..4 over 6 op types (1554 sequences), recording op builders',
+                   bounds='all op-type sequences of length 1..4 (quick) / 1..5 (thorough) over 6 op types, recording op builders',
                    functions=['db/common.py BaseEvolutionOperations.generate_table_ops_sql, generate_table_op_sql, _are_ops_mergeable, mergeable_ops']),
     ]
     obs.append(Obligation('one_rebuild', 'harness/c18.py', 'h_one_rebuild', timeout=600,
